@@ -297,6 +297,21 @@ pub fn all(full: bool) -> Vec<Config> {
         360.0,
         false,
     ));
+    {
+        let special = epcsaft_special_temperatures();
+        let mut c1 = cfg("epcsaft_water", M::ElectrolytePcSaft(epcsaft(&["water"], false)), 1, 647.0, false);
+        c1.special_t = special.clone();
+        v.push(c1);
+        let mut c2 = cfg(
+            "epcsaft_water_nacl",
+            M::ElectrolytePcSaft(epcsaft(&["water", "sodium ion", "chloride ion"], true)),
+            3,
+            647.0,
+            true,
+        );
+        c2.special_t = special;
+        v.push(c2);
+    }
     if full {
         v.push(cfg("uv_wca1", M::UVTheory(uvtheory(1, Perturbation::WeeksChandlerAndersen)), 1, 160.0, false));
         v.push(cfg("uv_wca2", M::UVTheory(uvtheory(2, Perturbation::WeeksChandlerAndersen)), 2, 200.0, false));
@@ -317,19 +332,6 @@ pub fn all(full: bool) -> Vec<Config> {
             40.0,
             false,
         ));
-        let special = epcsaft_special_temperatures();
-        let mut c1 = cfg("epcsaft_water", M::ElectrolytePcSaft(epcsaft(&["water"], false)), 1, 647.0, false);
-        c1.special_t = special.clone();
-        v.push(c1);
-        let mut c2 = cfg(
-            "epcsaft_water_nacl",
-            M::ElectrolytePcSaft(epcsaft(&["water", "sodium ion", "chloride ion"], true)),
-            3,
-            647.0,
-            false,
-        );
-        c2.special_t = special;
-        v.push(c2);
     }
     v
 }
